@@ -17,6 +17,10 @@
   * `c08_revoked_string_sticks` — histories: after the owner's revocation of an access-token string (answered 200, proved in
     `revoke_kills_at`) NO later presentation of that string, read as at the revocation, is honoured at any endpoint of either router -
     for every plaintext, in particular every subject.
+  * `c08_jwt_other_issuer_unreadable`, `c08_jwt_other_issuer_refused`, `c08_jwt_other_issuer_history` — over EVERY storage (flat or
+    partitioning; no hypothesis on the state): a JWT whose payload names another issuer than the one the request is addressed to is
+    refused by all three regenerated readers (the storage is not asked) and honoured at no operation of any history.  They rest on the
+    REGENERATED `Provider.AccessTokenVerifier` (`provider_verifier`): memoising the verifier (seeded C08-D) takes them down.
 -/
 import OidcModel.Proofs.C08Deep
 
@@ -206,6 +210,45 @@ theorem c08_unreadable_refused_everywhere (atp : ResATProvider) (s : St) (op : O
     obtain ⟨id, sub, hr', _⟩ := honoured_is_resolved atp s op x e tok hp h
     rw [hr] at hr'; cases hr'
 
+/-! ### JWT access tokens are bound to their issuer by the LIBRARY, over every storage
+
+  A multi-issuer provider (`op.IssuerFromHost`, `IssuerFromForwardedOrHost`) may sit on a storage that keeps ONE token table for all its
+  issuers.  Opaque and refresh tokens carry no issuer: for them the storage is the only check.  A JWT access token names its issuer, and
+  the regenerated `Provider.AccessTokenVerifier` builds the verifier of every request from the issuer of THAT request: -/
+
+/-- the three REGENERATED readers refuse a JWT whose payload names another issuer than the one the request is addressed to - the storage
+    is not even asked: the statement holds for every `s` (flat, partitioning, anything), every key set and every verifier option -/
+theorem c08_jwt_other_issuer_unreadable (atp : ResATProvider) (e : Env) (s : St) (tok : String)
+    (hd : ∀ pl, e.decrypt tok ≠ .ok pl)
+    (hiss : ∀ pl c0, ParseToken e.now (e.tokenOf tok) = .ok (pl, c0) → c0.iss ≠ e.issuer) :
+    resolve e.now (provider atp e s) tok = none ∧
+    GenRes.getTokenIDAndSubject e.now (provider atp e s) tok = ("", "", false) ∧
+    GenRes.getTokenIDAndSubjectForRevocation e.now (provider atp e s) tok = .ok ("", "", false) ∧
+    (GenRes.getTokenIDAndClaims e.now (provider atp e s) tok).2.2.2 = false := by
+  have hr : resolve e.now (provider atp e s) tok = none := by
+    cases hr : resolve e.now (provider atp e s) tok with
+    | none => rfl
+    | some pr =>
+      obtain ⟨id, sub⟩ := pr
+      obtain ⟨pl, c0, c, hp, hi, _⟩ := jwt_resolve (p := provider atp e s) hd hr
+      rw [provider_verifier] at hi
+      exact absurd hi (hiss pl c0 hp)
+  refine ⟨hr, ?_, ?_, ?_⟩
+  · rw [getTokenIDAndSubject_eq, hr]; rfl
+  · rw [getTokenIDAndSubjectForRevocation_eq, hr]; rfl
+  · have := getTokenIDAndClaims_eq e.now (provider atp e s) tok
+    rw [hr] at this
+    simp only [resolved, Prod.mk.injEq] at this
+    exact this.2.2
+
+/-- C08 over EVERY storage: a JWT access token presented at an issuer other than the one its payload names is honoured at no endpoint
+    (userinfo, introspection, token exchange) of either router, whatever the storage state - in particular when the storage is flat and
+    finds the token's record under every issuer -/
+theorem c08_jwt_other_issuer_refused (atp : ResATProvider) (s : St) (op : Op) (e : Env) (tok : String)
+    (hp : presentedAt op = some (e, tok)) (hd : ∀ pl, e.decrypt tok ≠ .ok pl)
+    (hiss : ∀ pl c0, ParseToken e.now (e.tokenOf tok) = .ok (pl, c0) → c0.iss ≠ e.issuer) : (step atp s op).2 = none :=
+  c08_unreadable_refused_everywhere atp s op e tok hp (c08_jwt_other_issuer_unreadable atp e s tok hd hiss).1
+
 /-! ### histories -/
 
 /-- a statement about every operation of a history together with its outcome -/
@@ -271,6 +314,21 @@ theorem c08_revoked_string_sticks (rt : Router) (atp : ResATProvider) (e : Env) 
       obtain ⟨rfl, _⟩ := hr''
       exact absurd ho (dead_not_honoured atp s1 op (.at _) hdead)
 
+/-- C08 over histories and EVERY storage (no hypothesis on `s`, in particular none on `s.partitioned`): a JWT access token is never
+    honoured at an operation addressed to another issuer than the one its payload names, at any point of any history -/
+theorem c08_jwt_other_issuer_history (atp : ResATProvider) (tok : String) (ops : List Op) (s : St)
+    (hu : ∀ op, op ∈ ops → ∀ e, presentedAt op = some (e, tok) →
+      (∀ pl, e.decrypt tok ≠ .ok pl) ∧ ∀ pl c0, ParseToken e.now (e.tokenOf tok) = .ok (pl, c0) → c0.iss ≠ e.issuer) :
+    Aligned (fun op o => (∃ e, presentedAt op = some (e, tok)) → o = none) ops (run atp s ops).2 := by
+  induction ops generalizing s with
+  | nil => simp [run, Aligned]
+  | cons op rest ih =>
+    simp only [run, Aligned]
+    refine ⟨?_, ih (step atp s op).1 fun o ho => hu o (List.mem_cons_of_mem _ ho)⟩
+    rintro ⟨e, hp⟩
+    obtain ⟨hd, hiss⟩ := hu op (List.mem_cons_self) e hp
+    exact c08_jwt_other_issuer_refused atp s op e tok hp hd hiss
+
 /-! ### non-vacuity -/
 
 example : opaqueParts "at1:user1" = some ("at1", "user1") := by decide
@@ -287,5 +345,12 @@ example : (revoke .provider {} exUrnEnv exUrnSt (some "web") "access_token" "opa
     (revoke .provider {} exUrnEnv exUrnSt (some "web") "access_token" "opaque7").1.toks = exUrnSt.toks := by decide
 example : (revoke .legacy {} exUrnEnv exUrnSt (some "evil") "" "opaque7").2 = .ok ∧
     (revoke .legacy {} exUrnEnv exUrnSt (some "evil") "" "opaque7").1.toks = exUrnSt.toks := by decide
+
+-- a FLAT storage (one table, `partitioned := false`) under a multi-issuer provider: the opaque token of issuer A is found at B (the
+-- storage's doing), the JWT of issuer A is refused at B by the library
+def exFlatSt : St := { toks := [{ exTok with issuer := "https://a.example" }], rtoks := [{ exRT with issuer := "https://a.example" }], partitioned := false }
+example : (run exATP exFlatSt [.userinfo .provider exOpB "opaque1", .userinfo .provider exEnvA "jwtA", .userinfo .provider exEnvB "jwtA",
+    .introspect .legacy exEnvB (some "web") "jwtA", .exchange exEnvB false "jwtA"]).2
+    = [some (.at "at1"), some (.at "at1"), none, none, none] := by decide
 
 end Res
